@@ -77,6 +77,22 @@ template<int C, int R> void reg_int() {
   add_unit_i32(nm("imulmv", {C, R}), C * R + C, R, [](auto const* x, auto* o) { using T = TY(o); stv(o, ldm<C, R, T>(x) * ldv<C, T>(x + C * R)); });
 }
 
+// gtx/matrix_operation diagonalCxR(v): identity-like matrix with v on the diagonal; gtx/matrix_major_storage: rowMajorN / colMajorN from vectors and from a matrix
+#define DIAG(C, R, K) add_unit(nm("gdiag", {C, R}), K, C * R, [](auto const* x, auto* o) { using T = TY(o); stm(o, glm::diagonal##C##x##R(ldv<K, T>(x))); });
+#define MAJ(N) \
+  add_unit(nm("rowmajor_m", {N}), N * N, N * N, [](auto const* x, auto* o) { using T = TY(o); stm(o, glm::rowMajor##N(ldm<N, N, T>(x))); }); \
+  add_unit(nm("colmajor_m", {N}), N * N, N * N, [](auto const* x, auto* o) { using T = TY(o); stm(o, glm::colMajor##N(ldm<N, N, T>(x))); });
+void reg_gtx_storage() {
+  DIAG(2, 2, 2) DIAG(2, 3, 2) DIAG(2, 4, 2) DIAG(3, 2, 2) DIAG(3, 3, 3) DIAG(3, 4, 3) DIAG(4, 2, 2) DIAG(4, 3, 3) DIAG(4, 4, 4)
+  MAJ(2) MAJ(3) MAJ(4)
+  add_unit(nm("rowmajor_v", {2}), 4, 4, [](auto const* x, auto* o) { using T = TY(o); stm(o, glm::rowMajor2(ldv<2, T>(x), ldv<2, T>(x + 2))); });
+  add_unit(nm("rowmajor_v", {3}), 9, 9, [](auto const* x, auto* o) { using T = TY(o); stm(o, glm::rowMajor3(ldv<3, T>(x), ldv<3, T>(x + 3), ldv<3, T>(x + 6))); });
+  add_unit(nm("rowmajor_v", {4}), 16, 16, [](auto const* x, auto* o) { using T = TY(o); stm(o, glm::rowMajor4(ldv<4, T>(x), ldv<4, T>(x + 4), ldv<4, T>(x + 8), ldv<4, T>(x + 12))); });
+  add_unit(nm("colmajor_v", {2}), 4, 4, [](auto const* x, auto* o) { using T = TY(o); stm(o, glm::colMajor2(ldv<2, T>(x), ldv<2, T>(x + 2))); });
+  add_unit(nm("colmajor_v", {3}), 9, 9, [](auto const* x, auto* o) { using T = TY(o); stm(o, glm::colMajor3(ldv<3, T>(x), ldv<3, T>(x + 3), ldv<3, T>(x + 6))); });
+  add_unit(nm("colmajor_v", {4}), 16, 16, [](auto const* x, auto* o) { using T = TY(o); stm(o, glm::colMajor4(ldv<4, T>(x), ldv<4, T>(x + 4), ldv<4, T>(x + 8), ldv<4, T>(x + 12))); });
+}
+
 int main(int argc, char** argv) {
 #define ALLSHAPES(F) F<2,2>(); F<2,3>(); F<2,4>(); F<3,2>(); F<3,3>(); F<3,4>(); F<4,2>(); F<4,3>(); F<4,4>();
 #if IN_PART(0)
@@ -93,6 +109,7 @@ int main(int argc, char** argv) {
   reg_shape<4,2>(); reg_shape<4,3>(); reg_shape<4,4>();
 #endif
 #if IN_PART(4)
+  reg_gtx_storage();
   ALLSHAPES(reg_int)
   ALLSHAPES(reg_conv_all)
 #endif
